@@ -186,6 +186,13 @@ def begin_run(seed, clock=None):
     reg = _errors._error_extraction.registry
     reg.clear()
     reg.update(_ORIG["registry"])
+    # a ContextVar needs no reset (every run has fresh contexts); a mutant that
+    # keeps the context in a global does, or one run's leak poisons the next
+    try:
+        from eliot import _action
+        _action._ACTION_CONTEXT.set(None)
+    except Exception:  # noqa
+        pass
     _CLOCK = clock if clock is not None else SimClock()
     _UUID_RNG = random.Random(seed ^ 0x5EED)
     return _CLOCK
